@@ -8,7 +8,7 @@ from . import p_java
 FAMILY = "refactor"
 GEN_GROUPS = ["Refactor"]
 
-NEW_NAMES = ["q", "zz9", "renamedToSomethingMuchLonger", "go2", "x_y", "fetchAll"]
+NEW_NAMES = ["q", "zz9", "renamedToSomethingMuchLonger", "go2", "x_y", "fetchAll", "sum$all", "$tmp", "_v"]      # ($ and _ are identifier characters)
 COMMENTS = ["é note", "ünï — ✓", "日本語", "run();", "find(", "plain", "😀 two units in UTF-16", "𝒳𝒴 astral"]
 
 
@@ -166,7 +166,8 @@ def oracle_c05(case, out, raw):
 
         # a chained call `old().m()` names its receiver by the callee before it: that text is renamed with it
         import re
-        pat = re.compile(r"\b(%s|%s)\b" % (re.escape(old), re.escape(new)))
+        # (whole identifiers: `$` and `_` are identifier characters, so \b would not do)
+        pat = re.compile(r"(?<![A-Za-z0-9_$])(%s|%s)(?![A-Za-z0-9_$])" % (re.escape(old), re.escape(new)))
 
         def chain(nodes):
             for n in nodes:
@@ -317,9 +318,11 @@ def unused_file(rng, idx):
         else:
             # a statically imported constant, referenced as a bare name somewhere in the file (or not at all)
             cn = "MAX_" + n.upper().replace("É", "E")
+            if rng.random() < 0.4:
+                cn = "out" + n.replace("É", "E").replace("é", "e")      # a lower-case member (`import static java.lang.System.out;`)
             imports.append(("import static %s.%s.%s;" % (p, n, cn), cn, rng.random() < 0.6))
             if imports[-1][2] and kind == "class":
-                uses.append((rng.choice(["constfield", "constcmp", "constdim", "constassign", "constarg", "constret", "constanno"]), cn))
+                uses.append((rng.choice(["constfield", "constcmp", "constdim", "constassign", "constarg", "constret", "constanno"] if cn.startswith("MAX_") else ["lowrecv", "constarg", "constassign"]), cn))
             elif imports[-1][2]:
                 imports[-1] = (imports[-1][0], cn, False)
     # the same single-type import written on two lines (a merge leftover): both lines are imports of that name, both go when
@@ -389,6 +392,8 @@ def unused_file(rng, idx):
             methods.append("    int[] cd%s() { return new int[%s]; }" % (n.lower(), n))
         elif how == "constassign":
             methods.append("    void ca%s() { int k; k = %s; }" % (n.lower(), n))
+        elif how == "lowrecv":
+            methods.append("    void lr%s() { %s.println(1); }" % (n.lower(), n))
         elif how == "constarg":
             methods.append("    void cg%s() { run(1, %s); }" % (n.lower(), n))
         elif how == "constret":
